@@ -35,7 +35,7 @@ accepted alternative to an identical re-send for every other body kind.  "Either
 listed in run()'s assumptions and counted.
 
 Tiers: quick = drivers {pool, manager} x histories <= 2 x 4 methods; thorough = histories <= 3,
-9 methods, plus PoolManager with cross-host redirects (histories <= 2).
+8 methods, plus PoolManager with cross-host redirects (histories <= 2).
 """
 from __future__ import annotations
 
@@ -59,7 +59,7 @@ STEPS = ["connect-error", "reset", "503", "307", "308", "303", "301"]
 # quick: two body-less-class methods, POST (the one method a 301 may rewrite), and an unknown method
 # (takes the same code paths as PUT/PATCH: expects a body, never rewritten)
 METHODS_QUICK = ["GET", "DELETE", "POST", "QUERY"]
-METHODS_THOROUGH = ["GET", "HEAD", "DELETE", "OPTIONS", "TRACE", "POST", "PUT", "PATCH", "QUERY"]
+METHODS_THOROUGH = ["GET", "HEAD", "DELETE", "OPTIONS", "POST", "PUT", "PATCH", "QUERY"]
 HDRS = ["none", "cl", "te"]
 # RFC 9110 9.3: methods for which a body-less request carries no framing at all
 NOBODY = {"GET", "HEAD", "DELETE", "OPTIONS", "TRACE", "CONNECT"}
